@@ -24,6 +24,9 @@ pub const NAMES: &[&str] = ROUTES;
 const MAX_CALLBACKS: u32 = 160;
 
 pub fn generate(rng: &mut Rng, _tier: &str) -> Scenario {
+    if rng.chance(1, 8) {
+        return crate::realfam::generate("C15", rng);
+    }
     if rng.chance(1, 3) {
         // workload A: text obtained by serializing a value; the mirrored type reads it (covers every enum shape)
         for _ in 0..20 {
@@ -240,6 +243,10 @@ fn check_sink(e: &RouteErr, out: &mut RunOut, route: &str) {
 
 pub fn execute(sc: &Scenario, verbose: bool) -> RunOut {
     let mut out = RunOut::default();
+    if sc.workload == "R" {
+        crate::realfam::execute("C15", sc, verbose, &mut out);
+        return out;
+    }
     let ty = &sc.ty;
     let doc = sc.doc.as_ref().expect("C15 without document");
     let text = &doc.text;
@@ -257,20 +264,30 @@ pub fn execute(sc: &Scenario, verbose: bool) -> RunOut {
         Ok(Ok(d)) => d,
     };
     out.stats.inc(&format!("workload.{}", sc.workload));
-    let root = im.as_item();
-    let mut rendered_seen: std::collections::HashSet<String> = std::collections::HashSet::new();
     let single: Option<(u32, bool)> = match sc.fault {
         FaultSpec::Vis(k, e) => Some((k, e)),
         _ => None,
     };
+    enumerate_faults(text, im.as_item(), single, sc, verbose, &mut out, &|route, fault, keep| {
+        let cx = Ctx::new(fault, keep);
+        let rcfg = RCfg::plain();
+        let r = catch_unwind(AssertUnwindSafe(|| run_route(route, text, ty, &rcfg, &cx).map(|v| format!("{v:?}"))));
+        (r, cx)
+    });
+    out
+}
+
+pub type RouteRun<'a> = dyn Fn(&'static str, Fault, bool) -> (std::thread::Result<Result<String, RouteErr>>, Ctx) + 'a;
+
+/// The enumeration itself, independent of who the reader is (stub peer or a real derived type).
+pub fn enumerate_faults(text: &str, root: &toml_edit::Item, single: Option<(u32, bool)>, sc: &Scenario, verbose: bool, out: &mut RunOut, route_run: &RouteRun<'_>) {
+    let mut rendered_seen: std::collections::HashSet<String> = std::collections::HashSet::new();
     for route in ROUTES {
         if !sc.wants(route) {
             continue;
         }
         let run = |fault: Fault, out: &mut RunOut, keep: bool| {
-            let cx = Ctx::new(fault, keep);
-            let rcfg = RCfg::plain();
-            let r = catch_unwind(AssertUnwindSafe(|| run_route(route, text, ty, &rcfg, &cx)));
+            let (r, cx) = route_run(route, fault, keep);
             out.absorb(&cx);
             if keep {
                 out.log.push(format!("--- {route} fault={fault:?}"));
@@ -281,14 +298,14 @@ pub fn execute(sc: &Scenario, verbose: bool) -> RunOut {
             let fired = cx.fired.borrow().clone();
             (r, cx.vis_count.get(), fired)
         };
-        let (r0, n, _) = run(Fault::None, &mut out, false);
+        let (r0, n, _) = run(Fault::None, out, false);
         let r0 = match r0 {
             Ok(r) => r,
             Err(p) => {
                 let m = panic_msg(&p);
                 if m.contains("HARNESS") {
                     out.harness_error = Some(m);
-                    return out;
+                    return;
                 }
                 out.violate("C15/1", format!("C15/panic/route={route}"), format!("{route} panicked without any fault: {m}\n--- text ---\n{text}"));
                 continue;
@@ -297,7 +314,7 @@ pub fn execute(sc: &Scenario, verbose: bool) -> RunOut {
         if let Err(e) = &r0 {
             if e.message.contains("HARNESS") {
                 out.harness_error = Some(e.message.clone());
-                return out;
+                return;
             }
             // a genuine mismatch between document and type: the library's own error; located too
             out.stats.inc("outcome.library_error_without_fault");
@@ -306,11 +323,11 @@ pub fn execute(sc: &Scenario, verbose: bool) -> RunOut {
                     if !(s <= en && en <= text.len() && text.is_char_boundary(s) && text.is_char_boundary(en)) {
                         out.violate("C15/2", format!("C15/span-out-of-bounds/route={route}"), format!("{route}: error span {s}..{en} is not inside the document on character boundaries\n--- text ---\n{text}"));
                     } else {
-                        check_rendering(text, e, &mut out, route);
+                        check_rendering(text, e, out, route);
                     }
                 }
                 if rendered_seen.insert(e.rendered.clone()) {
-                    check_sink(e, &mut out, route);
+                    check_sink(e, out, route);
                 }
             }
         }
@@ -322,7 +339,7 @@ pub fn execute(sc: &Scenario, verbose: bool) -> RunOut {
             out.stats.inc("probe.callbacks_capped");
         }
         for (k, exit) in positions {
-            let (r, _, fired) = run(Fault::Vis { k, exit }, &mut out, verbose && single.is_some());
+            let (r, _, fired) = run(Fault::Vis { k, exit }, out, verbose && single.is_some());
             let fired = match fired {
                 Some(f) => f,
                 None => continue, // an exit fault on a callback that fails by itself does not fire
@@ -402,7 +419,7 @@ pub fn execute(sc: &Scenario, verbose: bool) -> RunOut {
                     }
                 }
                 // clause 4
-                check_rendering(text, &e, &mut out, route);
+                check_rendering(text, &e, out, route);
             } else {
                 // clause 5: no source text -> no span, key path in the message
                 if e.span.is_some() {
@@ -426,11 +443,11 @@ pub fn execute(sc: &Scenario, verbose: bool) -> RunOut {
             }
             // clause 6: F-SINK at every write of every distinct error
             if rendered_seen.insert(e.rendered.clone()) {
-                check_sink(&e, &mut out, route);
+                check_sink(&e, out, route);
             }
         }
         // F-RES: the fault-free twin after the faulted runs is unaffected
-        let (r1, _, _) = run(Fault::None, &mut out, false);
+        let (r1, _, _) = run(Fault::None, out, false);
         let same = match (&r0, &r1) {
             (Ok(a), Ok(Ok(b))) => a == b,
             (Err(a), Ok(Err(b))) => a.rendered == b.rendered,
@@ -440,5 +457,4 @@ pub fn execute(sc: &Scenario, verbose: bool) -> RunOut {
             out.violate("C15/7", format!("C15/fault-free-twin-differs/route={route}"), format!("{route}: the fault-free run after the faulted runs differs from the one before"));
         }
     }
-    out
 }
